@@ -5,6 +5,7 @@ re-execution.  Calls are resolved to (a) contracts (modular), (b) inlined real
 bodies, (c) library shims (assumed contracts A2/A3), else Unsupported.
 """
 import ast
+import re
 from fractions import Fraction
 import z3
 
@@ -1089,7 +1090,34 @@ class Interp:
         return None
 
     def e_JoinedStr(self, st, fr, node):
-        return VStr("fstring")
+        """f-strings: literal pieces, {x} of strings / integers, {n:<width>d} and {n:+<width>d}; anything else is an unmodelled text"""
+        from . import strings
+        parts = []
+        for v in node.values:
+            if isinstance(v, ast.Constant) and isinstance(v.value, str):
+                parts.append(v.value)
+                continue
+            if not isinstance(v, ast.FormattedValue) or v.conversion not in (-1, 115):
+                return VStr("fstring")
+            val = self.resolve(st, self.eval(st, fr, v.value))
+            spec = ""
+            if v.format_spec is not None:
+                if not all(isinstance(x, ast.Constant) for x in v.format_spec.values):
+                    return VStr("fstring")
+                spec = "".join(x.value for x in v.format_spec.values)
+            if spec == "" and (isinstance(val, str) or (is_z3(val) and z3.is_string(val))):
+                parts.append(val)
+            elif (spec == "" or re.fullmatch(r"[+ ]?\d*d", spec)) and (isinstance(val, int) and not isinstance(val, bool) or (is_z3(val) and z3.is_int(val))):
+                r = strings.format_percent(self, st, "%" + (spec if spec else "d"), VTuple([val]), node)
+                if isinstance(r, VStr):
+                    return r
+                parts.append(r)
+            else:
+                return VStr("fstring")
+        if all(isinstance(x, str) for x in parts):
+            return "".join(parts)
+        exprs = [z3.StringVal(x) if isinstance(x, str) else x for x in parts if not (isinstance(x, str) and x == "")]
+        return z3.Concat(*exprs) if len(exprs) > 1 else exprs[0]
 
     # ================================================================= statements
     def exec_block(self, st, fr, body):
